@@ -38,6 +38,7 @@ type Font struct {
 	Out      []int   `json:"out"`
 	W        []int   `json:"w"`
 	Name     []int   `json:"name"`
+	Nameset  string  `json:"nameset"`
 	CID      []int   `json:"cid"`
 	FD       []int   `json:"fd"`
 	Comp     [][]int `json:"comp"`
@@ -106,13 +107,24 @@ func Empty() *Proj {
 
 const numFD = 3
 
-// nameOf / tokenOfName: glyph names of constructed fonts.
-func nameOf(tok int) string {
+var expertNames = []string{"zerooldstyle", "oneoldstyle", "twooldstyle", "threeoldstyle", "fouroldstyle",
+	"fiveoldstyle", "sixoldstyle", "sevenoldstyle", "eightoldstyle", "nineoldstyle"}
+
+// nameOf / tokenOfName: glyph names of constructed fonts.  The name set decides how a name
+// token is spelled: "plain" G<k>; "std" the StandardEncoding names A, B, C, ... (codes 65, ...);
+// "expert" the ExpertEncoding names zerooldstyle, oneoldstyle, ... (codes 48, ...).
+func nameOf(tok int, nameset string) string {
 	if tok < 0 {
 		return ""
 	}
 	if tok == 0 {
 		return ".notdef"
+	}
+	switch {
+	case nameset == "std" && tok <= 26:
+		return string(rune(64 + tok))
+	case nameset == "expert" && tok <= len(expertNames):
+		return expertNames[tok-1]
 	}
 	return "G" + strconv.Itoa(tok)
 }
@@ -120,6 +132,14 @@ func nameOf(tok int) string {
 func tokenOfName(s string) int {
 	if s == ".notdef" {
 		return 0
+	}
+	for i, e := range expertNames {
+		if s == e {
+			return i + 1
+		}
+	}
+	if len(s) == 1 && s[0] >= 'A' && s[0] <= 'Z' {
+		return int(s[0]) - 64
 	}
 	s = strings.TrimRight(s, "x") // name padding
 	if strings.HasPrefix(s, "G") {
@@ -254,14 +274,14 @@ func Build(F *Font, salt uint32, pad *Pad) (*sfnt.Font, *Ident) {
 		}
 		if named {
 			for g := 0; g < n; g++ {
-				out.Names = append(out.Names, nameOf(F.Name[g]))
+				out.Names = append(out.Names, nameOf(F.Name[g], F.Nameset))
 			}
 		}
 		f.Outlines = out
 	case "cff", "cid":
 		out := &cff.Outlines{}
 		for g := 0; g < n; g++ {
-			name := nameOf(F.Name[g])
+			name := nameOf(F.Name[g], F.Nameset)
 			if k := padOf(pad.Name, g); k > 0 && name != "" {
 				name += strings.Repeat("x", k)
 			}
@@ -363,6 +383,16 @@ func Build(F *Font, salt uint32, pad *Pad) (*sfnt.Font, *Ident) {
 		f.CMapTable = cmap.Table{
 			{PlatformID: 3, EncodingID: 1}:  f4(func(c int) bool { return c < 0x10000 }),
 			{PlatformID: 3, EncodingID: 10}: f12()}
+	case "4|12": // BMP characters in the format 4 subtable only, astral characters in the format 12 subtable only
+		var astral [][2]int
+		for _, e := range F.Cmap {
+			if e[0] >= 0x10000 {
+				astral = append(astral, [2]int{e[0], e[1]})
+			}
+		}
+		f.CMapTable = cmap.Table{
+			{PlatformID: 3, EncodingID: 1}:  f4(func(c int) bool { return c < 0x10000 }),
+			{PlatformID: 3, EncodingID: 10}: encodeFormat12(astral)}
 	default:
 		panic("subx: unknown cmapcfg " + F.CmapCfg)
 	}
